@@ -855,7 +855,16 @@ impl<'a> Searcher<'a> {
         let column_expr_str = column_expr.to_string();
 
         if file_map.contains_key(&column_expr_str) {
-            return Variant::from_string(&file_map[&column_expr_str]);
+            // a cached boolean must stay a boolean, or `contains(x) * 2` would depend on
+            // whether another column has already evaluated `contains(x)`
+            let cached = &file_map[&column_expr_str];
+            if column_expr.function.as_ref().is_some_and(|f| f.is_boolean_function()) {
+                if let Some(value) = str_to_bool(cached) {
+                    return Variant::from_bool(value);
+                }
+            }
+
+            return Variant::from_string(cached);
         }
         
         if let Some(ref _function) = column_expr.function {
